@@ -721,7 +721,29 @@ def rule_partition_count(ctx):
     ctx.ob(R, fu, fu.node, len(pub) == 1 and unparse(pub[0].stmt.value) == "_new_partitions", "the new partition map is not what update_metadata publishes", text="publishes-map")
     fp = ctx.fn("aiokafka.cluster.ClusterMetadata.partitions_for_topic")
     rets = [r for r in ast.walk(fp.node) if isinstance(r, ast.Return) and r.value is not None and not (isinstance(r.value, ast.Constant) and r.value.value is None)]
-    ok = len(rets) == 1 and unparse(rets[0].value) in ("set(self._partitions[topic].keys())", "set(self._partitions[topic])")
+    ok = len(rets) == 1
+    if ok:
+        # the topic's entry may be looked up once into a local (`.get(topic)` tested for None, or a subscript after the membership test)
+        tpar = fp.params()[1]
+        ldefs = {}
+        for n in ast.walk(fp.node):
+            if isinstance(n, ast.Assign) and len(n.targets) == 1 and isinstance(n.targets[0], ast.Name):
+                ldefs.setdefault(n.targets[0].id, []).append(n.value)
+
+        class _Sub(ast.NodeTransformer):
+            def visit_Name(self, node):
+                d = ldefs.get(node.id)
+                if isinstance(node.ctx, ast.Load) and d and len(d) == 1:
+                    return self.visit(ast.parse(unparse(d[0]), mode="eval").body)
+                return node
+
+            def visit_Call(self, node):
+                self.generic_visit(node)
+                if isinstance(node.func, ast.Attribute) and node.func.attr == "get" and len(node.args) == 1 and not node.keywords and unparse(node.func.value) == "self._partitions":
+                    return ast.Subscript(value=node.func.value, slice=node.args[0], ctx=ast.Load())
+                return node
+        val = unparse(_Sub().visit(ast.parse(unparse(rets[0].value), mode="eval").body))
+        ok = val in (f"set(self._partitions[{tpar}].keys())", f"set(self._partitions[{tpar}])")
     ctx.ob(R, fp, fp.node, ok, "partitions_for_topic does not return exactly the registered partition ids of the topic", text="returns-keys")
 
 
